@@ -58,6 +58,8 @@ class Model:
         self.ext = {}
         self.failflags = set()
         self.stampflags = set()
+        self.usermod_flags = set()
+        self.concurrent_mod = []
         self.dofiles = {}
         self.rec = {}
         self.run = 0
@@ -308,6 +310,7 @@ class Model:
         stamped = False
         always = False
         soft = 0
+        usermodded = False
         for st in spec["body"]:
             k = st[0]
             if k in ("dep", "softdep", "depstem"):
@@ -372,6 +375,14 @@ class Model:
                 break
             elif k in ("work", "err", "sleep"):
                 pass
+            elif k == "usermod":
+                if p in self.usermod_flags:
+                    # the user replaces the target while it is being built: redo must leave that file alone and
+                    # report the build as failed ("modified directly")
+                    self.usermod_flags.discard(p)
+                    self.user_write(p, ("concurrent %s\n" % p).encode())
+                    self.concurrent_mod.append(p)
+                    usermodded = True
             elif k == "out":
                 out_mode = st[1]
             elif k == "stamp":
@@ -385,6 +396,8 @@ class Model:
                 raise ValueError(st)
         if rc == 0 and soft:
             rc = soft
+        if rc == 0 and usermodded:
+            rc = 206
         # record dependency edges (replace on success; on failure the re-declared ones are kept too, and the
         # target is dirty anyway)
         seen = []
@@ -398,7 +411,7 @@ class Model:
         if rc != 0:
             r.failed = True
             r.failed_run = self.run
-            r.gen = p in self.fs
+            r.gen = p in self.fs and self.fs[p].owner != "user"
             r.deps = seen
             return rc
         data = acc.encode()
